@@ -446,6 +446,20 @@ impl World {
         if !matches!(op, Op::Push(_) | Op::Pop | Op::S(_, _) | Op::Spawn) {
             self.last_owner = 0;
         }
+        // values built through an unsafe constructor are outside C02 ("without unsafe code")
+        let saved_props = self.props;
+        match op {
+            Op::Push(ml) | Op::BoardMake(ml) | Op::S(_, SOp::TryRaw(ml)) | Op::S(_, SOp::Functional(ml)) if ml.is_unsafe_built() => {
+                self.props &= !C02;
+            }
+            _ => {}
+        }
+        let r = self.exec_inner(op);
+        self.props = saved_props;
+        r
+    }
+
+    fn exec_inner(&mut self, op: &Op) -> R {
         let r = match op {
             Op::Push(ml) => self.op_push(ml),
             Op::PushUnchecked(m) => self.op_push_unchecked(m),
@@ -972,6 +986,9 @@ impl World {
             return Ok(Exec::Skipped);
         }
         let info = self.info().clone();
+        if !crate::lib_api::unsafe_like_ok(&info, self.chain.last(), ml) {
+            return Ok(Exec::Skipped);
+        }
         let den = denote(&info.pos, &info.legal, ml);
         let before = Full::of(self.chain.last());
         let len0 = self.rc.len();
@@ -1086,7 +1103,7 @@ impl World {
     /// touching the board at all, which is C02's and C13's concern.
     pub(crate) fn names_pseudo_legal(info: &Info, ml: &MoveLike) -> bool {
         match ml {
-            MoveLike::Move(m) => info.pseudo.contains(m),
+            MoveLike::Move(m) | MoveLike::TryUnchecked(m) => info.pseudo.contains(m),
             MoveLike::UciMove { src, dst, promo } => info
                 .pseudo
                 .iter()
